@@ -5,6 +5,9 @@
 
 import os, subprocess, time
 
+# commits in /repo that add verification hooks (guarded by the build tag `verif`)
+HOOK_COMMITS = ["4c15474 verif hook: VoteExtHandler.SetKeyring (app/extend_vote_verif.go)"]
+
 
 def race_pconc(prop, tier, seed, replay, run, work, verif, repo, goenv, hbin, driver, **kw):
     """C20, thorough tier: the concurrent family under Go's race detector (runtime evidence for 'no data race')."""
@@ -96,7 +99,7 @@ PROPS = {
     },
     "C03": {
         "props_module": "LayerModel.Props.C03",
-        "families": [("supply", 64, 1500, "chain")],
+        "families": [("supply", 96, 1500, "chain"), ("supplylong", 8, 64, "chain")],
         "gen": ["facts", "formulas"],
         "rule": "supply: chain histories (real app, 1-3 validators) of >= 10 blocks in which time-based minting produced at least one non-zero provision; distinct = distinct operation sequences",
         "level_text": "Theorems: block provision and tip burn are the code's formulas (regenerated); nothing is minted before governance starts minting nor in the first block after; the provision splits exactly into the reward-pool part and the truncated fee-pool quarter; cumulative minting over ANY sequence of non-decreasing block times is bounded by rate x elapsed time (induction over the block list); supply after a block = supply before + provision + documented deltas; the MintCoins/BurnCoins call-site table and the module-account permission table are regenerated from the source and proved equal to the expected tables. Frame condition tied to the code by chain-mode correspondence: the REAL application (multi-validator genesis, real ante chain, real vote extensions) executes generated histories over every message type; after every block its total supply must equal the model's prediction from the documented events alone (tips, withdrawals, claims, dispute executions, dust) and the bank TotalSupply invariant must hold.",
@@ -105,7 +108,7 @@ PROPS = {
     },
     "C02": {
         "props_module": "LayerModel.Props.C02",
-        "families": [("nohalt", 72, 2000, "chain")],
+        "families": [("nohalt", 160, 2000, "chain"), ("nohaltlong", 8, 64, "chain")],
         "gen": ["facts", "formulas"],
         "rule": "nohalt: chain histories (real app, 2-4 validators, hostile values, all layer message types, governance cycle-list changes, gaps 1 ms .. 22 days) with >= 10 blocks; distinct = distinct operation sequences",
         "level_text": "Search-backed: the property quantifies over all transaction sequences of the whole application; it is decided by executing the REAL application on generated hostile histories and requiring every block to be produced (no FinalizeBlock error or panic, honest proposal accepted). Theorems cover each failure site found on the begin/end-block paths: the cycle-list pointer lookup is total over any sequence of rotations and governance replacements; every report value SubmitValue accepts parses at aggregation time; every mint output is positive for every positive provision; the dispute begin-blocker's tally is total; with counterexample theorems for the four pre-fix halts.",
@@ -139,5 +142,14 @@ PROPS = {
         "level_text": "Theorems: storing under a fresh key appends to that query's chronological list and changes no other entry; sequence numbers grow by one; timestamps stay strictly increasing when block times do; flagging changes only the flag and never clears it; 'current' is the last entry, 'by index' the i-th, 'data before T' the latest unflagged entry strictly before T (maximality proved from the ordering invariant), 'timestamp before/after T' the greatest below / least above T. Tie: the oracle model must reproduce the real Aggregates collection after every block (incl. bridge withdrawals and flags from funded disputes and evidence); the real getters are probed at timestamps before/between/equal/after stored ones and at indexes in and out of range and compared with the model; an implementation-only monitor checks that consecutive dumps differ only by appended entries and raised flags.",
         "level_note": "Trusted: Lean kernel; model Chain/Oracle.lean; strictly increasing block time is an assumption (CometBFT); the bridge snapshot's prev/next timestamps use the same two getters (GetTimestampBefore/After) whose characterisation is C08_ts_before_after.",
         "trusted": ["model Chain/Oracle.lean", "harness fam_oracle_test.go (dumps, getter probes)"],
+    },
+    "C14": {
+        "props_module": "LayerModel.Props.C14",
+        "families": [("claim", 6000, 200000), ("deposit", 8, 96, "chain"), ("wvalue", 1500, 40000), ("qid", 500, 20000)],
+        "gen": ["facts", "formulas"],
+        "rule": "claim: generated claim attempts that succeed on the real ClaimDeposit; deposit: long chain histories (2000-block report window, 12 h delay) with at least one accepted claim; wvalue/qid: every case; distinct = distinct input lines",
+        "level_text": "Theorems: a claim succeeds only if the aggregate exists, is unflagged, the id is unclaimed, a checkpoint strictly older than the aggregate exists whose threshold the aggregate's power reaches, the aggregate is at least 12 h old and the value decodes with a valid recipient; once an id is in the claimed set it stays there and EVERY later transaction containing a claim of it (alone or anywhere in a batch) is rejected as a whole, a successful batch has pairwise distinct new ids — so over every history an id is claimed at most once; minted = floor(amount/10^12), claimer gets floor(tip/10^12), recipient the rest (under floor(amount/10^12) < 2^63, with a counterexample theorem for the recorded Int64 wrap); a withdrawal burns exactly the amount and takes the next id (first 1); withdrawal queries are never reportable (from C07). Tie: the real ClaimDeposit on a real store with mocked oracle/bank over generated aggregates, checkpoints, ages, values (wraps, tip > amount, malformed); end-to-end long histories on the real app (reports by two reporters at different heights, 2000-block window, 12 h delay, repeated/batched claims, withdrawals) with per-claim balance monitors; withdrawal value round trip and query ids from C15's families.",
+        "level_note": "Trusted: Lean kernel; model Chain/BridgeClaim.lean; the ABI decoding of the report value and the bech32 check enter the model as inputs computed by the harness with go-ethereum / the SDK directly; aggregate/flag bookkeeping is the oracle model's (C07/C08).",
+        "trusted": ["model Chain/BridgeClaim.lean", "harness fam_claim_test.go (mock oracle/bank), fam_deposit_test.go (real app)"],
     },
 }
